@@ -5,7 +5,8 @@ handed to the consumer: fingerprint gate before the verification key is
 installed, signature gate before a version or a share is recorded in the
 servermap, signed prefix covers every verinfo field Retrieve relies on, hash
 gates before a block leaves Retrieve._validate_block, only validated blocks are
-decoded, only decoded+decrypted segments are written (DESIGN.md section 5, C10)."""
+decoded, only decoded+decrypted segments are written (DESIGN.md section 5, C10); a share whose bytes cannot be
+parsed or validated reaches Retrieve._handle_bad_share as an exception type it tolerates (C10.12, C10.13)."""
 from sa.h import *
 from sa.cfg import reaching_defs, PARAM_DEF
 
@@ -35,14 +36,22 @@ EXPLANATION = (
     "(or in verify mode) and by download() behind size == 0; (12) _set_segment cuts the tail only under "
     "_current_segment == _last_segment and a non-zero bound, the head only under _current_segment == _start_segment, "
     "does each cut on every path to the write where that equality holds (unless an edge says the boundary remainder is "
-    "zero), and blanks the segment only under _read_length == 0. "
-    "Undecided: RSA / SHA-256d strength, hashtree arithmetic, zfec algebra, availability (k intact shares => success; "
+    "zero), and blanks the segment only under _read_length == 0; (13, rule C10.12) a damaged share is dropped, not fatal - exception "
+    "containment: inside MDMFSlotReadProxy every Deferred callback that can raise struct.error (struct.unpack of bytes a "
+    "server returned, directly or through a reader method it calls) is followed, on every path to the return of the "
+    "Deferred, by an errback that traps struct.error and re-raises a BadShareError subclass (or the unpack sits in a try "
+    "whose handler does), the conversion errback really does that, and no public reader method can raise struct.error "
+    "synchronously; (14, rule C10.13) Retrieve._handle_bad_share's trap includes BadShareError and every exception raised explicitly "
+    "in MDMFSlotReadProxy and Retrieve._validate_block is a package class derived from a trapped class. "
+    "Undecided: RSA / SHA-256d strength, hashtree arithmetic, zfec algebra, the rest of availability (k intact shares => "
+    "success: share selection and replacement, exceptions other than struct.error that malformed server answers could "
+    "provoke in the reader such as IndexError on an empty read vector; "
     "this includes edits that only make a gate stricter, e.g. `and` -> `or` in the SDMF IV test, skipping "
     "bht.set_hashes(blockhashes), negating the bad-share / running tests of the servermap updater), pause/stop "
     "handling, the values of the trim bounds ((offset + read_length) % segment_size, offset % segment_size) and the "
     "order tail-before-head, the start/last segment arithmetic of _setup_encoding_parameters and _decode_blocks' own "
     "trimming (C09), publish-side surprise handling (C12).")
-TECHNIQUE = "static analysis: CFG must-precede gates on normalised edge facts, who-may-call/write sweeps, Deferred chain order, reaching definitions"
+TECHNIQUE = "static analysis: CFG must-precede gates on normalised edge facts, who-may-call/write sweeps, Deferred chain order, reaching definitions, exception-type containment along Deferred chains and the class hierarchy"
 
 SM = "mutable.servermap:ServermapUpdater"
 SMAP = "mutable.servermap:ServerMap"
@@ -146,6 +155,278 @@ def _who_may_use(r, idx, tail, allowed, what, module_prefix=None):
             continue
         r.violation(f, f.loc(n), "%s %s %s %s" % (short(f), "calls" if is_call else "takes as a value", tail, what))
     return len(uses)
+
+
+# ---- exception containment (C10.12 / C10.13) -----------------------------------------
+UNPACK_TAILS = {"unpack", "unpack_from", "iter_unpack"}
+REG_ATTRS = {"addCallback", "addCallbacks", "addErrback", "addBoth"}
+
+
+def _names_exc(m, e, dotted, builtin_bases=("Exception", "BaseException")):
+    """The handler type / trap argument `e` (in module m) denotes the external exception `dotted` (e.g. 'struct.error')
+    or one of its builtin base classes (bare `except:` included)."""
+    if e is None:
+        return True
+    if isinstance(e, ast.Tuple):
+        return any(_names_exc(m, x, dotted, builtin_bases) for x in e.elts)
+    p = attr_path(e)
+    if p is None:
+        return False
+    if p in builtin_bases:
+        return True
+    head, _, tail = p.partition(".")
+    full = m.imports.get(head)
+    if full is None:
+        return False
+    return full + ("." + tail if tail else "") == dotted
+
+
+def _exc_class(idx, m, e):
+    """ClassInfo of the package exception class a `raise` operand / trap argument denotes (None: not a package class)."""
+    if isinstance(e, ast.Call):
+        e = e.func
+    if e is None:
+        return None
+    return idx.resolve_expr_to_class(m, e)
+
+
+def _in_family(ci, roots):
+    return ci is not None and any(c in roots for c in ci.mro())
+
+
+def _local_func(idx, f, e, depth=0):
+    """FuncInfo that the callable expression `e` inside f denotes: lambda, partial(x, ..), nested / enclosing def,
+    module function, self.method, or a local bound once to one of those."""
+    if isinstance(e, ast.Lambda):
+        return idx.lambda_func(f, e)
+    if isinstance(e, ast.Call) and call_tail(e) == "partial" and e.args:
+        return _local_func(idx, f, e.args[0], depth)
+    if isinstance(e, ast.Name):
+        g = f
+        while g is not None:
+            if e.id in g.nested:
+                return g.nested[e.id]
+            g = g.parent
+        x = idx.resolve_name(f.module, e.id)
+        if isinstance(x, FuncInfo):
+            return x
+        if depth < 2 and not isinstance(f.node, ast.Lambda):
+            d = unique_defs(f).get(e.id)
+            if d is not None:
+                return _local_func(idx, f, d, depth + 1)
+        return None
+    if isinstance(e, ast.Attribute) and isinstance(e.value, ast.Name) and e.value.id == "self" and f.cls is not None:
+        return f.cls.lookup(e.attr)
+    return None
+
+
+def _unprotected_calls(f, ok_handler):
+    """Calls evaluated by f's own body (nested defs / lambda bodies excluded) that do not sit in the body of a `try`
+    one of whose handlers satisfies ok_handler."""
+    out = []
+
+    def expr_calls(node):
+        return [x for x in own_nodes(node) if isinstance(x, ast.Call)]
+
+    def walk(stmts, prot):
+        for st in stmts:
+            if isinstance(st, (ast.FunctionDef, ast.AsyncFunctionDef, ast.ClassDef)):
+                continue
+            if isinstance(st, ast.Try):
+                walk(st.body, prot or any(ok_handler(h) for h in st.handlers))
+                for h in st.handlers:
+                    walk(h.body, prot)
+                walk(st.orelse, prot)
+                walk(st.finalbody, prot)
+                continue
+            bodies = []
+            for field in ("body", "orelse", "finalbody"):
+                sub = getattr(st, field, None)
+                if isinstance(sub, list) and sub and isinstance(sub[0], ast.stmt):
+                    bodies.append(sub)
+            if not bodies:
+                if not prot:
+                    out.extend(expr_calls(st))
+                continue
+            for fld, val in ast.iter_fields(st):
+                if fld in ("body", "orelse", "finalbody", "handlers"):
+                    continue
+                for v in (val if isinstance(val, list) else [val]):
+                    if isinstance(v, ast.AST) and not prot:
+                        out.extend(expr_calls(v))
+            for b in bodies:
+                walk(b, prot)
+    walk(f.body, False)
+    return out
+
+
+def _chain_base(c):
+    while isinstance(c, ast.Call) and isinstance(c.func, ast.Attribute) and c.func.attr in REG_ATTRS:
+        c = c.func.value
+    return c
+
+
+class _StructContainment:
+    """Which functions of the reader class can raise struct.error, which hand out a Deferred that can fail with it,
+    and which errbacks turn it into an exception of the bad-share family."""
+
+    def __init__(self, idx, in_scope, family_roots):
+        self.idx = idx
+        self.in_scope = in_scope          # FuncInfo -> bool : part of the reader class
+        self.roots = family_roots
+        self._raise = {}
+        self._leak = {}
+        self._conv = {}
+        self.states = 0
+
+    # -- a handler / errback that converts struct.error -------------------------------
+    def ok_handler_in(self, f):
+        def ok(h):
+            if not _names_exc(f.module, h.type, "struct.error"):
+                return False
+            if not h.body or any(isinstance(x, ast.Return) for st in h.body for x in own_nodes(st)):
+                return False
+            last = h.body[-1]
+            return isinstance(last, ast.Raise) and last.exc is not None and \
+                _in_family(_exc_class(self.idx, f.module, last.exc), self.roots)
+        return ok
+
+    def converter_problem(self, g):
+        """None when the errback g re-raises every struct.error failure as a bad-share-family exception, else why not."""
+        if g.qual in self._conv:
+            return self._conv[g.qual]
+        ps = first_positional_params(g)
+        if not ps:
+            self._conv[g.qual] = "takes no failure"
+            return self._conv[g.qual]
+        p = ps[0]
+        cfg = g.cfg()
+
+        def picks_struct(c, meth):
+            return call_name(c) == p + "." + meth and any(_names_exc(g.module, a, "struct.error") for a in c.args)
+
+        def tr(n, lab, nxt, st):
+            if n.kind in ("entry", "exit", "raise"):
+                return st
+            if lab == "exc":
+                return st if is_raise(n) else None
+            for c in node_calls(n):
+                if call_name(c) == p + ".trap":
+                    if picks_struct(c, "trap"):
+                        st = "S"
+                    elif st != "N":
+                        raw.append(c)       # a struct.error failure is re-raised unchanged here
+                        return None
+            if n.kind == "test" and isinstance(lab, tuple) and isinstance(n.ast, ast.Call) and picks_struct(n.ast, "check"):
+                st = "S" if lab[0] == "T" else "N"
+            return st
+        raw = []
+        visited, _ = explore(cfg, "?", tr)
+        self.states += len(visited)
+        why = "%s lets a struct.error failure through unchanged" % src(g, raw[0]) if raw else None
+        for (nid, st) in sorted(visited):
+            n = cfg.nodes[nid]
+            if st == "N" or why:
+                continue
+            if n.kind == "exit":
+                why = "can return normally for a struct.error failure (or never identifies one with trap/check)"
+            elif is_raise(n) and not _in_family(_exc_class(self.idx, g.module, n.ast.exc), self.roots):
+                why = "raises %s, which is not a BadShareError, for a struct.error failure" % (
+                    src(g, n.ast.exc) if n.ast.exc is not None else "the original exception again")
+            if why:
+                break
+        self._conv[g.qual] = why
+        return why
+
+    def is_converter(self, f, target):
+        g = _local_func(self.idx, f, target) if target is not None else None
+        return g is not None and self.converter_problem(g) is None
+
+    # -- synchronous struct.error -------------------------------------------------------
+    def may_raise(self, f):
+        """The call through which running f can raise struct.error (None: it cannot)."""
+        if f.qual in self._raise:
+            return self._raise[f.qual]
+        self._raise[f.qual] = None
+        why = None
+        for c in _unprotected_calls(f, self.ok_handler_in(f)):
+            if call_tail(c) in UNPACK_TAILS:
+                why = c
+                break
+            g = _local_func(self.idx, f, c.func)
+            if g is not None and g.qual != f.qual and self.in_scope(g) and self.may_raise(g):
+                why = c
+                break
+        self._raise[f.qual] = why
+        return why
+
+    # -- Deferreds that can fail with struct.error ----------------------------------------
+    def fails_with_struct(self, f, target):
+        """registering `target` as a callback makes the chain able to fail with struct.error"""
+        g = _local_func(self.idx, f, target) if target is not None else None
+        if g is None or not self.in_scope(g):
+            return None
+        if self.may_raise(g) is not None:
+            return g
+        if self.leaks(g) is not None:
+            return g
+        return None
+
+    def leaks(self, f):
+        """(witness, description) when a Deferred built / obtained in f can still fail with struct.error when f returns
+        normally; None otherwise."""
+        if f.qual in self._leak:
+            return self._leak[f.qual]
+        self._leak[f.qual] = None
+        cfg = f.cfg()
+        regs = registrations(f)
+        assigned = {}
+        for st in func_own_nodes(f):
+            if isinstance(st, ast.Assign) and len(st.targets) == 1 and attr_path(st.targets[0]):
+                assigned[id(_chain_base(st.value))] = attr_path(st.targets[0])
+        events = {}
+        for n in cfg.nodes:
+            if n.kind in ("entry", "exit", "raise") or n.ast is None:
+                continue
+            calls = node_calls(n)
+            ids = {id(c) for c in calls}
+            evs = []
+            for c in calls:
+                if isinstance(c.func, ast.Attribute) and c.func.attr in REG_ATTRS:
+                    continue
+                g = _local_func(self.idx, f, c.func)
+                if g is not None and g.qual != f.qual and self.in_scope(g) and self.leaks(g) is not None:
+                    evs.append(("src", assigned.get(id(c), ""), g))
+            for x in regs:
+                if id(x.call) in ids:
+                    evs.append(("reg", x.recv or assigned.get(id(_chain_base(x.call)), ""), x))
+            if evs:
+                events[n.id] = evs
+
+        def tr(n, lab, nxt, st):
+            if lab == "exc":
+                return None
+            for (what, key, x) in events.get(n.id, ()):
+                if what == "src":
+                    st = st | {(key, short(x))}
+                    continue
+                if (x.kind in ("eb", "both") and self.is_converter(f, x.target)) or \
+                        (x.kind == "pair" and self.is_converter(f, x.errtarget)):
+                    st = frozenset(e for e in st if e[0] != key)
+                if x.kind in ("cb", "both", "pair"):
+                    g = self.fails_with_struct(f, x.target)
+                    if g is not None:
+                        st = st | {(key, short(g))}
+            return st
+        visited, parent = explore(cfg, frozenset(), tr)
+        self.states += len(visited)
+        res = None
+        for (nid, st) in sorted(visited, key=lambda v: (v[0], sorted(v[1]))):
+            if cfg.nodes[nid].kind == "exit" and st:
+                res = (witness(cfg, parent, (nid, st)), ", ".join(sorted({e[1] for e in st})))
+                break
+        self._leak[f.qual] = res
+        return res
 
 
 def run(ctx: Context):
@@ -1182,3 +1463,103 @@ def run(ctx: Context):
                     r.violation(ss, ss.loc(scfg.nodes[nid].ast), "the %s requested segment reaches the consumer without its %s being "
                                 "trimmed to the requested range: bytes outside the read would be delivered (path: %s)" % (
                                     what, "tail" if i == 0 else "head", w.brief()), w)
+
+    # -- 12. malformed share bytes are a bad share, not an internal error -------------------
+    with ctx.rule("C10.12", "E7/R1", "MDMFSlotReadProxy: a struct.error raised while unpacking bytes a server returned never leaves "
+                  "the reader - every callback that can raise it is followed on its Deferred by an errback that re-raises it as "
+                  "a BadShareError (or the unpack sits in a try that does), and no reader method raises it synchronously",
+                  expected=3) as r:
+        bad_ci = idx.cls("mutable.common:BadShareError")
+        rcls = idx.cls(READER)
+        pfx = rcls.qual + "."
+
+        def in_reader(f):
+            return f.qual.startswith(pfx)
+        sc = _StructContainment(idx, in_reader, [bad_ci])
+        rfuncs = [f for f in idx.funcs.values() if in_reader(f)]
+        unpackers = [f for f in rfuncs if any(isinstance(x, ast.Call) and call_tail(x) in UNPACK_TAILS for x in func_own_nodes(f))]
+        if not unpackers:
+            raise AnchorVanished("no struct.unpack in MDMFSlotReadProxy")
+        for f in unpackers:
+            r.site(f, None, "unpacks share bytes")
+        # registration targets (so that a bare reference to a raising function elsewhere is noticed)
+        reg_targets = set()
+        for f in rfuncs:
+            for x in registrations(f):
+                for t in (x.target, x.errtarget):
+                    while isinstance(t, ast.Call) and call_tail(t) == "partial" and t.args:
+                        t = t.args[0]
+                    if t is not None:
+                        reg_targets.add(id(t))
+        for f in rfuncs:
+            if f.parent is not None:
+                continue            # nested callbacks are judged where they are registered / called
+            sync = sc.may_raise(f)
+            leak = sc.leaks(f)
+            if sync is None and leak is None:
+                continue
+            uses = _uses_everywhere(idx, f.name, "allmydata.mutable")
+            outside = [(u, nd) for (u, nd, _c) in uses if not in_reader(u)]
+            for (u, nd, is_call) in uses:
+                if in_reader(u) and not is_call and id(nd) not in reg_targets:
+                    r.violation(u, u.loc(nd), "%s takes %s, which can raise struct.error on malformed share bytes, as a value outside a "
+                                "Deferred chain: nothing turns the error into a BadShareError there" % (short(u), f.name))
+            exposed = not f.name.startswith("_") or bool(outside)
+            if not exposed:
+                continue            # internal helper: its callers inside the reader are judged instead
+            if sync is not None:
+                r.violation(f, f.loc(sync), "%s can raise struct.error synchronously (%s) when a server returns short or malformed "
+                            "bytes: Retrieve._handle_bad_share tolerates only BadShareError, so one damaged share aborts the whole "
+                            "read" % (short(f), src(f, sync)))
+            if leak is not None:
+                w, names = leak
+                r.violation(f, f.loc(), "the Deferred returned by %s can fail with a raw struct.error from %s: no errback after that "
+                            "callback re-raises it as BadShareError, so Retrieve._handle_bad_share (which tolerates only "
+                            "BadShareError) lets one damaged share abort the read although k intact shares are reachable "
+                            "(path: %s)" % (short(f), names, w.brief()), w)
+        r.count(sc.states)
+
+    # -- 13. every bad-share report reaches _handle_bad_share as a type it tolerates ----------
+    with ctx.rule("C10.13", "R4", "Retrieve._handle_bad_share tolerates BadShareError, and every exception raised explicitly by "
+                  "MDMFSlotReadProxy and by Retrieve._validate_block is one of the tolerated package classes", expected=15) as r:
+        bad_ci = idx.cls("mutable.common:BadShareError")
+        hb = idx.func(RET + "._handle_bad_share")
+        fp = first_positional_params(hb)[0]
+        traps = [c for c in calls_in_func(hb, "trap") if call_name(c) == fp + ".trap"]
+        tolerated = None            # None: everything (no trap at all)
+        tolerates_all = not traps
+        for c in traps:
+            r.site(hb, c, "trap")
+            cls_here = set()
+            for a in c.args:
+                if _names_exc(hb.module, a, "builtins.Exception"):
+                    tolerates_all = True
+                ci = _exc_class(idx, hb.module, a)
+                if ci is not None:
+                    cls_here.add(ci)
+            tolerated = cls_here if tolerated is None else (tolerated & cls_here)
+            r.require(tolerates_all or _in_family(bad_ci, cls_here), hb, hb.loc(c), "_handle_bad_share traps %s: a BadShareError "
+                      "(malformed, truncated or corrupt share) is re-raised and aborts the read instead of the share being dropped "
+                      "and replaced by another one" % src(hb, c))
+        if not traps:
+            r.site(hb, None, "no trap: every failure is tolerated")
+        roots = list(tolerated or [])
+        vb = idx.func(RET + "._validate_block")
+        pfx = idx.cls(READER).qual + "."
+        raisers = [f for f in idx.funcs.values() if f.qual.startswith(pfx)] + [vb]
+        n_raise = 0
+        for f in raisers:
+            for n in func_own_nodes(f):
+                if not isinstance(n, ast.Raise) or n.exc is None:
+                    continue
+                n_raise += 1
+                r.site(f, n, "raise")
+                if tolerates_all:
+                    continue
+                ci = _exc_class(idx, f.module, n.exc)
+                r.require(_in_family(ci, roots), f, f.loc(n), "%s raises %s for a bad share, but that is not %s Retrieve._handle_bad_share "
+                          "tolerates (%s): the read fails instead of dropping the share" % (
+                              short(f), src(f, n.exc), "a subclass of what" if ci is not None else "a package exception class that",
+                              ", ".join(sorted(c.name for c in roots)) or "nothing"))
+        if n_raise < 2:
+            raise AnchorVanished("raise statements in MDMFSlotReadProxy / Retrieve._validate_block")
